@@ -564,3 +564,158 @@ def c13_corr(res, exe, driver, tier, seed, tmp):
                 "text and cursor kept and the message written; error returned).")
     for c, impl, model, raw in out[:3]:
         res.samples.append({"keys": c.keys, "impl": " ## ".join(impl)[:400]})
+
+
+# ---------------------------------------------------------------- C05: undo
+
+C05_TEXT = ["a", "b", "Z", "9", " ", " ", ",", ".", "é", "日", "x", "(", "_"]
+BIG_EDIT_TAGS = {"killeol", "killbol", "killbbig", "killfword", "killbword", "yank", "edit"}
+
+
+def gen_c05_cmds(rng, n, with_undo=True, kills=True):
+    cmds = []
+    for _ in range(n):
+        r = rng.random()
+        if not kills and 0.62 <= r < 0.80:
+            r = 0.3      # the kill ring is not this property's business: no kills / yanks in the compared part
+        if r < 0.40:
+            c = rng.choice(C05_TEXT)
+            cmds.append(Cmd([c], "ins", c=ord(c), n=1))
+        elif r < 0.52:
+            key, tag = rng.choice([("C-b", "left"), ("C-f", "right"), ("C-a", "home"), ("C-e", "end"), ("M-b", "bword"), ("M-f", "fword")])
+            cmds.append(Cmd([key], tag))
+        elif r < 0.62:
+            key, tag = rng.choice([("Backspace", "bs"), ("Delete", "del"), ("Delete", "del"), ("C-h", "bs")])
+            cmds.append(Cmd([key], tag))
+        elif r < 0.74:
+            key, tag = rng.choice([("C-k", "killeol"), ("C-u", "killbol"), ("C-w", "killbbig"), ("M-d", "killfword"), ("M-Backspace", "killbword")])
+            cmds.append(Cmd([key], tag))
+            if with_undo and rng.random() < 0.4:
+                cmds.append(Cmd(["C-_"], "undo", n=1))
+        elif r < 0.80:
+            cmds.append(Cmd(["C-y"], "yank"))
+            if with_undo and rng.random() < 0.4:
+                cmds.append(Cmd(["C-_"], "undo", n=1))
+        elif r < 0.86:
+            cmds.append(Cmd([rng.choice(["C-t", "M-t", "M-u", "M-l", "M-c"])], "edit"))
+            if with_undo and rng.random() < 0.4:
+                cmds.append(Cmd(["C-_"], "undo", n=1))
+        elif with_undo:
+            k = rng.choice([1, 1, 1, 1, 2, 3])
+            keys = (["M-%d" % k] if k > 1 else []) + [rng.choice(["C-_", "C-_", "C-x C-u"])]
+            keys = [x for kk in keys for x in kk.split(" ")]
+            cmds.append(Cmd(keys, "undo", n=k))
+        else:
+            c = rng.choice(C05_TEXT)
+            cmds.append(Cmd([c], "ins", c=ord(c), n=1))
+    return cmds
+
+
+def abort_episode(rng, hist, cands):
+    """keys that start a search or a completion, play in it, and abort it -- as one block"""
+    if hist and (not cands or rng.random() < 0.6):
+        ks = ["C-r"]
+        for _ in range(rng.randint(0, 5)):
+            ks.append(rng.choice(["a", "o", "e", "t", "x", "C-r", "C-s", "Backspace", "w", " "]))
+        ks.append("C-g")
+        return ks
+    ks = ["Tab"] + ["Tab"] * rng.randint(0, 3) + (["BackTab"] if rng.random() < 0.3 else [])
+    ks.append(rng.choice(["C-g", "Esc"]))
+    return ks
+
+
+def c05_oracle_cases(tier, seed):
+    rng = random.Random(seed * 1109 + 7)
+    n = 2400 if tier == "thorough" else 200
+    cases = []
+    # (1) undo at every kind of position; the script ends with an Undo of count 99
+    for _ in range(n):
+        cmds = gen_c05_cmds(rng, rng.randint(4, 26))
+        cmds.append(Cmd(["M-9", "M-9", "C-_"], "undo_all"))
+        cmds.append(Cmd(["Enter"], "enter"))
+        cases.append(script_case(cmds, mode="emacs", timeout=rng.choice(["none", 0]), prompt="> ",
+                                 initial=p_tty.mk_initial(rng, 0.3, C05_TEXT), meta=None))
+    # (2) pairs: A + aborted search/completion + B   vs   A + B
+    for k in range(n // 2):
+        hist = [rng.choice(p_tty.HIST_POOL) for _ in range(rng.choice([1, 2, 3]))]
+        cands = rng.sample(["foo", "foobar", "fo", "a", "ab", "abc", "b", "x y", "é", ""], rng.choice([0, 2, 3]))
+        A = gen_c05_cmds(rng, rng.randint(0, 10))
+        B = gen_c05_cmds(rng, rng.randint(2, 12), kills=False) + [Cmd(["C-_"], "undo", n=1)] * rng.randint(1, 4) + [Cmd(["Enter"], "enter")]
+        ep = abort_episode(rng, hist, cands)
+        init = p_tty.mk_initial(rng, 0.3, ["a", "f", "o", " ", "b"])
+        kw = dict(mode="emacs", timeout=0, prompt="> ", history=hist, cands=cands, initial=init)
+        c1 = script_case(A + [Cmd([x], "episode") for x in ep] + B, **kw)
+        c2 = script_case(A + B, **kw)
+        c1.meta.update({"pair": k, "role": "with", "nA": len(A), "nB": len(B), "nE": len(ep)})
+        c2.meta.update({"pair": k, "role": "without", "nA": len(A), "nB": len(B), "nE": 0})
+        cases += [c1, c2]
+    return cases
+
+
+def eval_c05(res, traces, stream):
+    stats = {"undo": 0, "undo_all": 0, "unit": 0, "pairs": 0}
+    pairs = {}
+    for t in traces:
+        if "pair" in t.case.meta:
+            pairs.setdefault(t.case.meta["pair"], {})[t.case.meta["role"]] = t
+        if not t.ok or "pair" in t.case.meta:
+            continue
+        seen = [[]]          # texts the line has had (the empty line it started from included)
+        for i, (cmd, (text, pos), after, ob) in enumerate(t.steps):
+            if text not in seen:
+                seen.append(text)
+            if after[0] != "state":
+                continue
+            text2 = after[1]
+            if cmd.tag == "undo":
+                stats["undo"] += 1
+                res.nontrivial.add(("undo", enc(text), cmd.arg["n"]))
+                if text2 not in seen:
+                    fail_case(res, stream, t, "(a) Undo at command %d produced a text the line never had: %s (had: %s)" % (
+                        i, enc(text2), " | ".join(enc(x) for x in seen)))
+                # (b) directly after a word-sized edit one Undo returns to the text before that edit
+                if cmd.arg["n"] == 1 and i > 0:
+                    pc, (ptext, ppos), pafter, _ = t.steps[i - 1]
+                    if pc.tag in BIG_EDIT_TAGS and ptext != text and abs(len(ptext) - len(text)) != 1:
+                        stats["unit"] += 1
+                        if text2 != ptext:
+                            fail_case(res, stream, t, "(b) Undo directly after the edit %r (%s -> %s) gave %s, not the text before that edit" % (
+                                pc, enc(ptext), enc(text), enc(text2)))
+            elif cmd.tag == "undo_all":
+                stats["undo_all"] += 1
+                if text2 != []:
+                    fail_case(res, stream, t, "(c) Undo with count 99 left (%s), not the empty line" % enc(text2))
+    # (d) an aborted search / completion leaves no trace in what follows
+    for k, pr in pairs.items():
+        if "with" not in pr or "without" not in pr:
+            continue
+        a, b = pr["with"], pr["without"]
+        if not (a.ok and b.ok):
+            continue
+        nB = a.case.meta["nB"]
+        sa = [(c.tag, before, after) for (c, before, after, ob) in a.steps[-nB:]]
+        sb = [(c.tag, before, after) for (c, before, after, ob) in b.steps[-nB:]]
+        stats["pairs"] += 1
+        res.nontrivial.add(("pair", tuple(a.case.keys)))
+        if sa != sb:
+            j = next(i for i in range(nB) if sa[i] != sb[i])
+            fail_case(res, stream, a, "(d) after the aborted episode the same commands behave differently from command B[%d] on: %s vs %s" % (
+                j, sa[j], sb[j]))
+    return stats
+
+
+def c05_corr(res, exe, driver, tier, seed, tmp):
+    cases = p_tty.c05_cases(tier, seed)
+    run_tty_cases(res, exe, driver, cases, tmp, "undo", rng=random.Random(seed), typeahead=0.3)
+    ocases = c05_oracle_cases(tier, seed)
+    out, traces = run_spec_stream(res, exe, driver, ocases, tmp, "undo-spec", seed, typeahead=0.0)
+    stats = eval_c05(res, traces, "undo-spec")
+    res.distribution.update({"oracle": stats, "spec_alignment": alignment(traces), "undo_scripts": len(cases),
+                             "spec_scripts": len(ocases)})
+    res.rule = ("undo: random emacs/vi scripts with C-_ / C-x C-u / vi u injected after 22% of the keys, with counts, plus searches and "
+                "completions started, aborted or accepted in between; compared with the extracted model. undo-spec: (a) every Undo "
+                "lands on a text observed earlier in the read; (b) one Undo directly after a word-sized edit restores the text before it; "
+                "(c) Undo with count 99 gives the empty line; (d) pairs of scripts A+episode+B / A+B where the episode is a search or a "
+                "completion that is aborted: the B parts must behave identically (states, undo results, returned line).")
+    for c, impl, model, raw in out[:3]:
+        res.samples.append({"keys": c.keys, "impl": " ## ".join(impl)[:400]})
